@@ -441,27 +441,34 @@ Proof.
 Qed.
 Print Assumptions C02_aesctrhmac_accepted_mutant_is_hmac_forgery.
 
-(* hence: a modified pair is an ERROR unless its tag is a valid truncated HMAC of some MAC
-   input other than the authenticated one (the premise is the unforgeability of HMAC for
-   the presented tag; it carries the cryptography) *)
-Theorem C02_aesctrhmac_mutant_rejected_without_forgery :
+(* hence, with x' := the ONE MAC input the modified pair parses to (ad' || c'[|prefix| : -tag size]
+   || be64(8|ad'|)): if x' is the authenticated input x, only tag bytes can have changed and the
+   pair is an error outright; otherwise x' is fresh, and the pair is an error unless the presented
+   tag IS the truncated HMAC of x'.  The hypothesis of the middle clause is PER-INSTANCE (about this
+   mutant's MAC input only): real HMAC satisfies it except with the forgery probability; no
+   hypothesis quantifies over all messages (that would be false of any real MAC by counting) *)
+Theorem C02_aesctrhmac_mutant_rejected_unless_forged :
   forall (aes hmac : bytes -> bytes -> bytes) (hlen : nat),
     (forall k b, length (aes k b) = 16%nat) -> (forall k m, length (hmac k m) = hlen) ->
     forall prefix k iv p ad c c' ad',
       (ek_tag k <= hlen)%nat -> lenN ad < 2 ^ 61 -> lenN ad' < 2 ^ 61 ->
       etm_enc aes hmac prefix k iv p ad = Ok c -> (c', ad') <> (c, ad) ->
-      (forall x', ~ hmac_forgery hmac k (mac_input ad (iv ++ aes_ctr (aes (ek_aes k)) iv p)) x' (tag_of k c')) ->
-      etm_dec aes hmac prefix k c' ad' = Err.
+      let x := mac_input ad (iv ++ aes_ctr (aes (ek_aes k)) iv p) in
+      let x' := mac_input ad' (payload_of (length prefix) k c') in
+      (x' = x -> etm_dec aes hmac prefix k c' ad' = Err) /\
+      (tag_of k c' <> tmac hmac k x' -> etm_dec aes hmac prefix k c' ad' = Err) /\
+      (forall p', etm_dec aes hmac prefix k c' ad' = Ok p' -> x' <> x /\ tag_of k c' = tmac hmac k x').
 Proof.
-  intros aes hmac hlen HA HH prefix k iv p ad c c' ad' Ht Ha Ha' He Hne Hnf.
-  exact (etm_mutant_rejected_without_forgery aes hmac hlen HA HH prefix k iv p ad c c' ad' Ht Ha Ha' He Hne Hnf).
+  intros aes hmac hlen HA HH prefix k iv p ad c c' ad' Ht Ha Ha' He Hne.
+  exact (etm_mutant_rejected_unless_forged aes hmac hlen HA HH prefix k iv p ad c c' ad' Ht Ha Ha' He Hne).
 Qed.
-Print Assumptions C02_aesctrhmac_mutant_rejected_without_forgery.
+Print Assumptions C02_aesctrhmac_mutant_rejected_unless_forged.
 
 (* with NO assumption on HMAC: whatever is confined to the tag (any flip in the last
-   tag-size bytes) is an error — the whole tag is compared; and under a second-preimage
-   law for the truncated HMAC at the authenticated input, every modification that keeps
-   the tag bytes (flips in IV or body, other AD, ...) is an error *)
+   tag-size bytes) is an error — the whole tag is compared; and a modification that keeps the
+   tag bytes (flips in IV or body, other AD, ...) is an error when the truncated HMACs of THIS
+   mutant's MAC input and of the authenticated input differ (per-instance: one pair of inputs;
+   real HMAC satisfies it except with the collision probability) *)
 Theorem C02_aesctrhmac_tag_mutations_rejected :
   forall (aes hmac : bytes -> bytes -> bytes) (hlen : nat),
     (forall k b, length (aes k b) = 16%nat) -> (forall k m, length (hmac k m) = hlen) ->
@@ -472,13 +479,15 @@ Theorem C02_aesctrhmac_tag_mutations_rejected :
          etm_dec aes hmac prefix k c' ad = Err) /\
       (forall c' ad', lenN ad < 2 ^ 61 -> lenN ad' < 2 ^ 61 ->
          (c', ad') <> (c, ad) -> tag_of k c' = tag_of k c ->
-         no_second_preimage hmac k (mac_input ad (iv ++ aes_ctr (aes (ek_aes k)) iv p)) ->
+         let x := mac_input ad (iv ++ aes_ctr (aes (ek_aes k)) iv p) in
+         let x' := mac_input ad' (payload_of (length prefix) k c') in
+         (x' <> x -> tmac hmac k x' <> tmac hmac k x) ->
          etm_dec aes hmac prefix k c' ad' = Err).
 Proof.
   intros aes hmac hlen HA HH prefix k iv p ad c Ht He. split.
   - intros c' H1 H2 H3. exact (etm_tag_only_mutation_rejected aes hmac hlen HA HH prefix k iv p ad c c' Ht He H1 H2 H3).
-  - intros c' ad' Ha Ha' Hne Htag Hlaw.
-    exact (etm_tag_kept_mutation_rejected aes hmac hlen HA HH prefix k iv p ad c c' ad' Ht Ha Ha' He Hne Htag Hlaw).
+  - intros c' ad' Ha Ha' Hne Htag x x' Hinst.
+    exact (etm_tag_kept_mutation_rejected aes hmac hlen HA HH prefix k iv p ad c c' ad' Ht Ha Ha' He Hne Htag Hinst).
 Qed.
 Print Assumptions C02_aesctrhmac_tag_mutations_rejected.
 
@@ -665,8 +674,8 @@ Print Assumptions C02_xaesgcm_decrypt_is_aesgcm_decrypt_under_the_derived_key.
    framing/size rejection or the comparison of the presented tag with the recomputed one; an
    accepted (c', ad') <> (c, ad) exhibits a (nonce', plaintext', ad') different from
    (nonce, p, ad) with its valid synthetic-IV tag — a forgery against the RFC 8452 tag
-   function tagf = AES(encKey, (POLYVAL(authKey, ...) xor nonce) & 0x7f..); without one,
-   the mutant is an error *)
+   function tagf = AES(encKey, (POLYVAL(authKey, ...) xor nonce) & 0x7f..); and a c' whose
+   presented tag differs from the recomputed tag of the fields it parses to is an error *)
 Theorem C02_aesgcmsiv_mutants :
   forall (aes : bytes -> bytes -> bytes), (forall k b, length (aes k b) = 16%nat) ->
     forall prefix key nonce p ad c c' ad',
@@ -675,14 +684,15 @@ Theorem C02_aesgcmsiv_mutants :
          exists nonce', length nonce' = 12%nat /\ (nonce', p', ad') <> (nonce, p, ad) /\
            c' = prefix ++ nonce' ++ sctr aes (dk_enc aes key nonce') (tagf aes key nonce' p' ad') p'
                        ++ tagf aes key nonce' p' ad') /\
-      ((forall nonce' p', length nonce' = 12%nat -> (nonce', p', ad') <> (nonce, p, ad) ->
-          c' <> prefix ++ nonce' ++ sctr aes (dk_enc aes key nonce') (tagf aes key nonce' p' ad') p'
-                       ++ tagf aes key nonce' p' ad') ->
-       siv_dec aes prefix key c' ad' = Err).
+      (* per-instance: for THE fields c' parses to, the presented tag is not the tag of the
+         plaintext it would release *)
+      (forall nonce' ct' tag', c' = prefix ++ nonce' ++ ct' ++ tag' -> length nonce' = 12%nat -> length tag' = 16%nat ->
+         tagf aes key nonce' (sctr aes (dk_enc aes key nonce') tag' ct') ad' <> tag' ->
+         siv_dec aes prefix key c' ad' = Err).
 Proof.
   intros aes HA prefix key nonce p ad c c' ad' Hn He Hne. split.
   - intros p' Hd. exact (siv_accepted_mutant_is_tag_forgery aes HA prefix key nonce p ad c c' ad' p' Hn He Hne Hd).
-  - intros Hnf. exact (siv_mutant_rejected_without_forgery aes HA prefix key nonce p ad c c' ad' Hn He Hne Hnf).
+  - intros nonce' ct' tag' Hc Hn' Ht' Hneq. exact (siv_wrong_tag_rejected aes HA prefix key nonce' ct' tag' c' ad' Hc Hn' Ht' Hneq).
 Qed.
 Print Assumptions C02_aesgcmsiv_mutants.
 
@@ -744,26 +754,31 @@ Print Assumptions C02_envelope_never_panics_closed.
 
 (* Non-vacuity of the stretch theorems.  (1) The forgery event of the reductions is real, not
    an artefact: with a constant MAC / the toy AEAD (which have no authenticity) a body bit flip
-   IS accepted and is a forgery in the stated sense.  (2) The premises of the rejection
-   theorems are met: a MAC that copies its input / a tag flip under the toy AEAD (which
-   satisfies the uniqueness and body-injectivity laws) is rejected. *)
+   IS accepted and is a forgery in the stated sense.  (2) ONE instance (a toy MAC that copies the
+   end of its input) inhabits the round trip and the per-instance premises of the rejection
+   theorems together; a tag flip under the toy AEAD (which satisfies the uniqueness and
+   body-injectivity laws) is rejected. *)
 Example C02_stretch_nonvacuous :
   (let c := match etm_enc toy_aes toy_hmac_const [] toy_key (zeros 12) [1; 2; 3] [9] with Ok c => c | _ => [] end in
    let c' := flip_bit 13 0 c in
    etm_dec toy_aes toy_hmac_const [] toy_key c' [9] = Ok [1; 3; 3] /\
    hmac_forgery toy_hmac_const toy_key (mac_input [9] (zeros 12 ++ [1; 2; 3]))
                 (mac_input [9] (payload_of 0 toy_key c')) (tag_of toy_key c')) /\
-  (let c := match etm_enc toy_aes toy_hmac_copy [] toy_key (zeros 12) [1; 2; 3] [9] with Ok c => c | _ => [] end in
-   let c' := flip_bit 13 0 c in
-   (c', [9]) <> (c, [9]) /\ tag_of toy_key c' = tag_of toy_key c /\
-   etm_dec toy_aes toy_hmac_copy [] toy_key c' [9] = Err) /\
+  (* ONE instance (toy MAC copying the end of its input) inhabits round trip and rejection together *)
+  (exists c, etm_enc toy_aes toy_hmac_copy [] toy_key (zeros 12) [1; 2; 3] [9] = Ok c /\
+     etm_dec toy_aes toy_hmac_copy [] toy_key c [9] = Ok [1; 2; 3] /\
+     let c' := flip_bit 13 0 c in
+     let x := mac_input [9] (zeros 12 ++ aes_ctr (toy_aes (ek_aes toy_key)) (zeros 12) [1; 2; 3]) in
+     let x' := mac_input [9] (payload_of 0 toy_key c') in
+     (c', [9]) <> (c, [9]) /\ x' <> x /\ tag_of toy_key c' <> tmac toy_hmac_copy toy_key x' /\
+     tag_of toy_key c' = tag_of toy_key c /\ tmac toy_hmac_copy toy_key x' <> tmac toy_hmac_copy toy_key x /\
+     etm_dec toy_aes toy_hmac_copy [] toy_key c' [9] = Err) /\
   seal_body_inj toy_seal /\
   (let c := match aesgcm_enc toy_seal (output_prefix VTink 258) [7] (zeros 12) [1; 2; 3] [9] with Ok c => c | _ => [] end in
    na_dec_canon (toy_open gcm_seal_max) 12 16 None None (output_prefix VTink 258) [7] (flip_bit 18 0 c) [9] = Ok [1; 3; 3] /\
    na_dec_canon (toy_open gcm_seal_max) 12 16 None None (output_prefix VTink 258) [7] (flip_bit 25 3 c) [9] = Err).
 Proof.
-  split; [exact etm_forgery_event_is_real|]. split.
-  { destruct etm_rejection_premises_inhabited as [_ [H1 [H2 H3]]]. auto. }
+  split; [exact etm_forgery_event_is_real|]. split; [exact etm_one_instance_round_trip_and_rejection|].
   split; [exact toy_body_inj|]. split.
   - exact (proj1 na_forgery_event_is_real).
   - destruct na_tag_only_premises_inhabited as [_ [_ [_ [_ H]]]]. exact H.
